@@ -9,7 +9,7 @@ use libfuzzer_sys::fuzz_target;
 use serde::de::DeserializeOwned;
 use serde::Serialize;
 
-const KNOWN: [&str; 2] = ["resources/asres.rs", "publication.rs"];
+const KNOWN: [&str; 2] = ["src/resources/asn.rs", "src/ca/publication.rs"];
 
 fn known(loc: &str) -> bool {
     loc.contains("rpki-") && KNOWN.iter().any(|k| loc.contains(k))
